@@ -10,6 +10,8 @@ miss=0
 clean_ok=""
 for d in seeded/${1:-*}/; do
   name=$(basename $d); id=${name%%-*}
+  # a change that breaks another property than the one its author was given is run against that property's check (meta.json: check_with)
+  other=$(python3 -c "import json,sys; print(json.load(open('$d/meta.json')).get('check_with',''))" 2>/dev/null); [ -n "$other" ] && id=$other
   if grep -q '"status": "neutralised' $d/meta.json 2>/dev/null; then echo "$name SKIPPED (neutralised by a later repair, see meta.json)"; continue; fi
   git -C $wt checkout -q -- . 
   # a seeded change only counts as caught if the same check is silent on the unpatched tree (checked once per property)
